@@ -196,7 +196,7 @@ func TestC06_Forms(t *testing.T) { RunProp(t, "c06.forms", genSshdMsg, execC06) 
 type c05Case struct {
 	M     sshdMsg   `json:"m"`
 	Junk  *junkLine `json:"junk,omitempty"` // if set, an unrecognised line is used instead of M
-	Fault string    `json:"fault"`          // none | encoder_error | cancel_blocked
+	Fault string    `json:"fault"`          // none | encoder_error | cancel_blocked | cancelled_before
 }
 
 func genC05(rt *rapid.T) c05Case {
@@ -213,7 +213,7 @@ func genC05(rt *rapid.T) c05Case {
 			c.M.PID = "00" + c.M.PID
 		}
 		c.M.Want["pid"] = c.M.PID
-		c.Fault = pick(rt, "fault", []string{"none", "none", "none", "encoder_error", "cancel_blocked"})
+		c.Fault = pick(rt, "fault", []string{"none", "none", "none", "encoder_error", "cancel_blocked", "cancelled_before"})
 	case k <= 7:
 		c.M = genSshdMsg(rt)
 		if c.M.Accepted {
@@ -260,6 +260,26 @@ func execC05(c c05Case) Outcome {
 	var got []rcv
 	stopRecv := make(chan struct{})
 	recvDone := make(chan struct{})
+	if c.Fault == "cancelled_before" {
+		// shutdown race: the line was read from the pipe, then the worker's context
+		// was cancelled before the line is processed. Cancellation only waives the
+		// hand-off; the event is written all the same.
+		cancel()
+		close(recvDone)
+		ret := proc.ProcessSshdLogEntry(ctx, sshd.SshdLogEntry{PID: pid, Message: msg})
+		if ret != nil {
+			return fail("accepted line %q under an already cancelled context: returned %v, want nil", msg, ret)
+		}
+		if rec.Len() != 1 {
+			return fail("accepted line %q under an already cancelled context: %d events written, want 1 (cancellation waives only the hand-off)", msg, rec.Len())
+		}
+		select {
+		case l := <-logins:
+			return fail("already cancelled context, nobody receiving: a login (pid %d) was forwarded", l.PID)
+		default:
+		}
+		return Outcome{NT: true, Labels: []string{"fault:cancelled_before", "form:" + c.M.Form}}
+	}
 	if c.Fault != "cancel_blocked" {
 		go func() {
 			defer close(recvDone)
